@@ -11,6 +11,7 @@ package main
 
 import (
 	"fmt"
+	"math/rand"
 	"sort"
 	"strings"
 )
@@ -128,6 +129,9 @@ func wholeSemantics(c *Check, r *Repo, rule string, opts modelOpts) {
 	}
 	ti := loadTemplate(r)
 	cases := wholeSemanticCases()
+	if c.Tier == "thorough" && opts == (modelOpts{Ast: true}) {
+		cases = append(cases, randomSemCases(c.Seed+31, 200)...)
+	}
 	type res struct {
 		bad, und []string
 		n        int
@@ -215,4 +219,100 @@ func wholeSemantics(c *Check, r *Repo, rule string, opts modelOpts) {
 		c.OK(rule, construct, "", fmt.Sprintf("%d rule functions of %d grammars (keywords, nested choices and sequences, classes, rule calls, lookaheads, captures and actions, predicates, recursion) built through the builder API and taken through all of Compile: outcome sets (verdict, position, tokens, events) equal the oracle's for the grammar as written", n, len(cases)))
 	}
 	c.Floor(rule, n, 12)
+}
+
+// randomSemCases: seeded random well-formed grammars over concrete leaves —
+// rules refer to later rules only (no recursion), repetitions are over
+// expressions that must consume — for the thorough tier.
+func randomSemCases(seed int64, n int) []semCase {
+	rng := rand.New(rand.NewSource(seed))
+	chars := []string{"a", "b", "c", "x", "y"}
+	var genC, genAny func(depth int, later []string, acts *int) *gexpr
+	genC = func(depth int, later []string, acts *int) *gexpr {
+		if depth == 0 || rng.Intn(3) == 0 {
+			switch k := rng.Intn(6); {
+			case k <= 2:
+				return gC(chars[rng.Intn(len(chars))])
+			case k == 3:
+				lo, hi := chars[rng.Intn(3)], chars[rng.Intn(3)]
+				if lo > hi {
+					lo, hi = hi, lo
+				}
+				return gRange(lo, hi)
+			case k == 4 && len(later) > 0:
+				return gN(later[rng.Intn(len(later))])
+			default:
+				return gDot()
+			}
+		}
+		switch rng.Intn(6) {
+		case 0, 1:
+			return gSeq(genC(depth-1, later, acts), genAny(depth-1, later, acts))
+		case 2:
+			return gSeq(genAny(depth-1, later, acts), genC(depth-1, later, acts))
+		case 3:
+			return gAlt(genC(depth-1, later, acts), genC(depth-1, later, acts))
+		case 4:
+			return gPlus(genC(depth-1, later, acts))
+		default:
+			return gPush(genC(depth-1, later, acts))
+		}
+	}
+	genAny = func(depth int, later []string, acts *int) *gexpr {
+		if depth == 0 {
+			return genC(0, later, acts)
+		}
+		switch rng.Intn(9) {
+		case 0:
+			return gQ(genC(depth-1, later, acts))
+		case 1:
+			return gStar(genC(depth-1, later, acts))
+		case 2:
+			return gAnd(genC(depth-1, later, acts))
+		case 3:
+			return gNot(genC(depth-1, later, acts))
+		case 4:
+			*acts++
+			return gActS(fmt.Sprintf("__act%d()", *acts))
+		case 5:
+			*acts++
+			return gPredS(fmt.Sprintf("__pred%d()", *acts))
+		case 6:
+			return gAlt(genC(depth-1, later, acts), gNil())
+		default:
+			return genC(depth, later, acts)
+		}
+	}
+	var out []semCase
+	for i := 0; i < n; i++ {
+		names := []string{"S", "A", "B"}[:2+rng.Intn(2)]
+		acts := 0
+		var kv []any
+		var descr []string
+		used := map[string]bool{}
+		var bodies []*gexpr
+		for k, nm := range names {
+			e := genC(2+rng.Intn(2), names[k+1:], &acts)
+			bodies = append(bodies, e)
+			refs := map[string]int{}
+			countRefs(e, refs)
+			for r := range refs {
+				used[r] = true
+			}
+			_ = nm
+		}
+		// every rule but the first must be used: S calls the unused ones in front of its body
+		for k := len(names) - 1; k >= 1; k-- {
+			if !used[names[k]] {
+				bodies[0] = gSeq(gQ(gN(names[k])), bodies[0])
+				used[names[k]] = true
+			}
+		}
+		for k, nm := range names {
+			kv = append(kv, nm, bodies[k])
+			descr = append(descr, nm+" <- "+gString(bodies[k]))
+		}
+		out = append(out, sc(fmt.Sprintf("random #%d %s", i, strings.Join(descr, "; ")), kv...))
+	}
+	return out
 }
